@@ -99,29 +99,30 @@ func (o *hOpenID) Provider() openidconfig.Provider { return o.p }
 // ---------------------------------------------------------------- the stack
 
 type stackOpts struct {
-	redis        bool
-	sso          bool // main instance is an SSO server; a proxy instance shares the store
-	fwdAuth      bool
-	inactivity   time.Duration // 0 = off
-	maxLifetime  time.Duration
-	acr          string
-	proxyAcr     string
-	includeIDTok bool
-	autoLogin    bool
-	ignorePaths  []string
-	updAtomic    bool
-	useSecret    bool
-	par          bool
-	issParam     bool
-	ingresses    []string
-	uiLocales    string
-	resource     string
-	rateLimit    *config.RateLimit
-	legacyCookie bool
-	ssoDomain    string   // sso.domain of the server and the proxy ("" = "wonderwall")
-	acrSupported []string // provider metadata acr_values_supported (nil = the default list)
-	sidOptional  bool     // provider metadata does not advertise front-channel session support (C03)
-	audiences    []string // openid.audiences: extra trusted audiences (C03)
+	redis         bool
+	sso           bool // main instance is an SSO server; a proxy instance shares the store
+	fwdAuth       bool
+	inactivity    time.Duration // 0 = off
+	maxLifetime   time.Duration
+	acr           string
+	proxyAcr      string
+	includeIDTok  bool
+	autoLogin     bool
+	ignorePaths   []string
+	updAtomic     bool
+	useSecret     bool
+	par           bool
+	issParam      bool
+	ingresses     []string
+	uiLocales     string
+	resource      string
+	rateLimit     *config.RateLimit
+	legacyCookie  bool
+	ssoDomain     string   // sso.domain of the server and the proxy ("" = "wonderwall")
+	singleReplica bool     // only one replica even over Redis
+	acrSupported  []string // provider metadata acr_values_supported (nil = the default list)
+	sidOptional   bool     // provider metadata does not advertise front-channel session support (C03)
+	audiences     []string // openid.audiences: extra trusted audiences (C03)
 	// C14/C17 (cookies.go, retry.go)
 	cookieSecure     bool   // cfg.Cookie.Secure
 	cookieSameSite   string // cfg.Cookie.SameSite ("" = Lax)
@@ -186,6 +187,7 @@ type stack struct {
 	gmem        *gateMemStore
 	main        *handler.Standalone
 	mainRt      chi.Router
+	mainRt2     chi.Router // a second replica (own handler, openid client and session manager) over the same shared store; nil with the in-memory store
 	proxy       *handler.SSOProxy
 	proxyRt     chi.Router
 	up          *upstreamRec
@@ -368,6 +370,24 @@ func newStack(o stackOpts) (*stack, error) {
 		s.proxyRt = router.New(ph, &pcfg)
 	}
 	s.mainRt = router.New(src, cfg)
+	if o.redis && !o.singleReplica {
+		// replica 2: everything per-process is separate, only the store (and its lock keys) is shared
+		h2, err := handler.NewStandalone(cfg, s.idp, s.oidc, s.crypter)
+		if err != nil {
+			return nil, err
+		}
+		h2.SessionManager = session.NewManagerWithStore(cfg, s.oidc, s.crypter, h2.Client, store)
+		h2.UpstreamProxy.Transport = s.up
+		var src2 router.Source = h2
+		if o.sso {
+			srv2, err := handler.NewSSOServer(cfg, h2)
+			if err != nil {
+				return nil, err
+			}
+			src2 = srv2
+		}
+		s.mainRt2 = router.New(src2, cfg)
+	}
 	return s, nil
 }
 
@@ -639,6 +659,9 @@ type reqSpec struct {
 func (s *stack) buildRequest(spec reqSpec, tid int) (*http.Request, chi.Router, context.CancelFunc) {
 	host := "http://wonderwall"
 	rt := s.mainRt
+	if s.mainRt2 != nil && tid%2 == 0 {
+		rt = s.mainRt2 // even thread ids are served by the second replica
+	}
 	method := "GET"
 	var path string
 	switch spec.kind {
